@@ -137,3 +137,24 @@ package guardiand
 //@   replay guardiand_governance.go.tmpl
 //@   loop [range req.Guardians]:
 //@     invariant [len] len(addrs) == len(req.Guardians)
+
+// InjectGovernanceVAA: no request may crash the node. The protobuf decoder hands over
+// non-nil messages and, for a set oneof, a non-nil inner message (environment assumptions).
+//@ func (s *nodePrivilegedService) InjectGovernanceVAA(ctx context.Context, req *nodev1.InjectGovernanceVAARequest) (resp *nodev1.InjectGovernanceVAAResponse, err error)
+//@   props C15
+//@   requires s != nil && req != nil && (forall i in 0..len(req.Messages) :: req.Messages[i] != nil)
+//@   modifies *
+//@   nopanic
+//@   replay guardiand_inject.go.tmpl
+//@   at [adminUpdateMessageFeeToVAA(s.governanceChainId, s.governanceEmitterAddress, payload.UpdateMessageFee, timestamp, req.CurrentSetIndex, message.Nonce, message.Sequence, targetChainId)]: assume-env [set-oneof-has-message] payload.UpdateMessageFee != nil
+//@   at [adminTransferFeeToVAA(s.governanceChainId, s.governanceEmitterAddress, payload.TransferFee, timestamp, req.CurrentSetIndex, message.Nonce, message.Sequence, targetChainId)]: assume-env [set-oneof-has-message] payload.TransferFee != nil
+//@   at [adminGuardianSetUpgradeToVAA(s.governanceChainId, s.governanceEmitterAddress, payload.GuardianSet, timestamp, req.CurrentSetIndex, message.Nonce, message.Sequence, targetChainId)]: assume-env [set-oneof-has-message] payload.GuardianSet != nil && (forall i in 0..len(payload.GuardianSet.Guardians) :: payload.GuardianSet.Guardians[i] != nil)
+//@   at [adminContractUpgradeToVAA(s.governanceChainId, s.governanceEmitterAddress, payload.ContractUpgrade, timestamp, req.CurrentSetIndex, message.Nonce, message.Sequence, targetChainId)]: assume-env [set-oneof-has-message] payload.ContractUpgrade != nil
+//@   at [tokenBridgeRegisterChain(s.governanceChainId, s.governanceEmitterAddress, payload.BridgeRegisterChain, timestamp, req.CurrentSetIndex, message.Nonce, message.Sequence, targetChainId)]: assume-env [set-oneof-has-message] payload.BridgeRegisterChain != nil
+//@   at [tokenBridgeUpgradeContract(s.governanceChainId, s.governanceEmitterAddress, payload.BridgeContractUpgrade, timestamp, req.CurrentSetIndex, message.Nonce, message.Sequence, targetChainId)]: assume-env [set-oneof-has-message] payload.BridgeContractUpgrade != nil
+//@   at [tokenBridgeDestroyUnexecutedSequenceContracts(s.governanceChainId, s.governanceEmitterAddress, payload.DestroyUnexecutedSequenceContracts, timestamp, req.CurrentSetIndex, message.Nonce, message.Sequence, targetChainId)]: assume-env [set-oneof-has-message] payload.DestroyUnexecutedSequenceContracts != nil
+//@   at [tokenBridgeUpdateMinimalConsistencyLevel(s.governanceChainId, s.governanceEmitterAddress, payload.UpdateMinimalConsistencyLevel, timestamp, req.CurrentSetIndex, message.Nonce, message.Sequence, targetChainId)]: assume-env [set-oneof-has-message] payload.UpdateMinimalConsistencyLevel != nil
+//@   at [tokenBridgeUpdateRefundAddress(s.governanceChainId, s.governanceEmitterAddress, payload.UpdateRefundAddress, timestamp, req.CurrentSetIndex, message.Nonce, message.Sequence, targetChainId)]: assume-env [set-oneof-has-message] payload.UpdateRefundAddress != nil
+//@   loop [range req.Messages]:
+//@     invariant [digests] len(digests) == len(req.Messages)
+//@     invariant [self] s != nil && req != nil && (forall i in 0..len(req.Messages) :: req.Messages[i] != nil)
